@@ -94,18 +94,22 @@ class DType(Harness):
 
 CLASS_CFGS = []
 for _pt in ("integer", "float", "enumerated", "boolean", "string", "binary", "time"):
-    for _cal in (False, True):
+    for _cal in (False, True, "context"):
         for _raw in (False, True):
             CLASS_CFGS.append((_pt, _cal, _raw))
 
 
 def build_param(lib, pt, cal):
     E, PT, K = lib.encodings, lib.parameter_types, lib.calibrators
-    calib = K.PolynomialCalibrator([K.PolynomialCoefficient(1.5, 0), K.PolynomialCoefficient(0.5, 1)]) if cal else None
+    calib = K.PolynomialCalibrator([K.PolynomialCoefficient(1.5, 0), K.PolynomialCoefficient(0.5, 1)]) if cal is True else None
+    ctxc = None
+    if cal == "context":      # calibrated ONLY through a context calibrator (criteria on the field's own raw value)
+        ctxc = [K.ContextCalibrator([lib.comparisons.Comparison("0", "P", operator=">=", use_calibrated_value=False)],
+                                    K.PolynomialCalibrator([K.PolynomialCoefficient(0.75, 0), K.PolynomialCoefficient(1.0, 1)]))]
     if pt == "integer":
-        return PT.IntegerParameterType("T", E.IntegerDataEncoding(12, "signed", default_calibrator=calib))
+        return PT.IntegerParameterType("T", E.IntegerDataEncoding(12, "signed", default_calibrator=calib, context_calibrators=ctxc))
     if pt == "float":
-        return PT.FloatParameterType("T", E.FloatDataEncoding(32, default_calibrator=calib))
+        return PT.FloatParameterType("T", E.FloatDataEncoding(32, default_calibrator=calib, context_calibrators=ctxc))
     if pt == "enumerated":
         return PT.EnumeratedParameterType("T", E.IntegerDataEncoding(8, "unsigned", default_calibrator=calib), enumeration={0: "OFF", 1: "ON", 200: "LONGER_LABEL"})
     if pt == "boolean":
@@ -114,7 +118,7 @@ def build_param(lib, pt, cal):
         return PT.StringParameterType("T", E.StringDataEncoding(fixed_raw_length=16))
     if pt == "binary":
         return PT.BinaryParameterType("T", E.BinaryDataEncoding(fixed_size_in_bits=16))
-    return PT.AbsoluteTimeParameterType("T", E.IntegerDataEncoding(16, "unsigned", default_calibrator=calib), unit="s")
+    return PT.AbsoluteTimeParameterType("T", E.IntegerDataEncoding(16, "unsigned", default_calibrator=calib, context_calibrators=ctxc), unit="s")
 
 
 def admits(dtype, value_class):
